@@ -352,3 +352,5 @@ func replState(s iface.Store) (string, bool) {
 	}
 	return "", false
 }
+
+var stderrW = os.Stderr
